@@ -72,8 +72,9 @@ Theorem C14_harness_mappers : forall tbl,
   sm_ok (enc_of tbl) (sm_of (SMset tbl)) /\
   sm_ok (fun i => JList [JStr (i_name i); enc_of tbl i]) (sm_of (SMwrap tbl)) /\
   sm_ok (enc_of tbl) (sm_of (SMnew tbl true)) /\
-  (forall enc, ~ sm_ok enc (sm_of (SMnew tbl false))).
-Proof. exact (fun tbl => conj (sm_extra_ok tbl) (conj (sm_set_ok tbl) (conj (sm_wrap_ok tbl) (conj (sm_new_keep_ok tbl) (sm_new_drop_not_ok tbl))))). Qed.
+  (forall enc, ~ sm_ok enc (sm_of (SMnew tbl false))) /\
+  sm_kids (sm_of (SMguid tbl)).
+Proof. exact (fun tbl => conj (sm_extra_ok tbl) (conj (sm_set_ok tbl) (conj (sm_wrap_ok tbl) (conj (sm_new_keep_ok tbl) (conj (sm_new_drop_not_ok tbl) (sm_guid_kids tbl)))))). Qed.
 Print Assumptions C14_harness_mappers.
 
 (* the keys written by Node.to_dict and read by Node.from_dict in /repo (lifted
@@ -96,18 +97,40 @@ Print Assumptions C14_source_keys.
 
 (* from_dict(to_dict_list(t)) succeeds and rebuilds the same tree up to node
    identity: for every tree with unique sibling data_ids (the C03 invariant),
-   every admissible serialisation mapper and every deserialisation step that is
-   its inverse on the data objects of the tree ([inverse_on]: from the dict
-   to_dict writes for a node – whatever its "children" entry – it builds an
-   object with the same ==-class, hash, str-ness and printed form; the step may
-   read any entry of the item, as the mappers of the pinned suite do).  The
-   rebuilt nodes are allocated in pre-order. *)
-Theorem C14_roundtrip : forall (enc : info -> jv) (sm : smapper) (dd : dmapper) (next : nat) (f : forest),
-  sm_ok enc sm -> sibuniq_f f -> Forall (allinfo (inverse_on sm dd)) f ->
+   every serialisation mapper that does not invent a "children" entry and every
+   deserialisation step that is its inverse on the data objects of the tree.
+   [inverse_on sm dd i]: from the dict to_dict writes for a node with payload i
+   – whatever its "children" entry – the step builds an object with the same
+   ==-class, hash, str-ness and printed form, and LEAVES THE ITEM with exactly
+   the "data_id" entry the node needs (its id when custom, none otherwise) and
+   no "node_id".  The step may read any entry and may change the item: a pair
+   that moves the id to another key ("guid") and restores item["data_id"] in the
+   deserialize mapper is an inverse pair (Node.from_dict reads "data_id" after
+   the mapper ran: "mapper may add item['data_id']").  The rebuilt nodes are
+   allocated in pre-order. *)
+Theorem C14_roundtrip : forall (sm : smapper) (dd : dmapper) (next : nat) (f : forest),
+  sm_kids sm -> sibuniq_f f -> Forall (allinfo (inverse_on sm dd)) f ->
   exists f', tree_from_dict dd next (to_dict_list sm f) = inl f' /\
              Forall2 iso f f' /\ ids f' = seq (S next) (size_f f).
 Proof. exact roundtrip. Qed.
 Print Assumptions C14_roundtrip.
+
+(* the same for the admissible mappers of the mirror theorems ([sm_ok]: "data_id"
+   left where to_dict put it), where a deserialisation step that only reads the
+   item is inverse as soon as it rebuilds indistinguishable data *)
+Theorem C14_roundtrip_ok : forall (enc : info -> jv) (sm : smapper) (dd : dmapper) (next : nat) (f : forest),
+  sm_ok enc sm -> sibuniq_f f -> Forall (allinfo (inverse_on sm dd)) f ->
+  exists f', tree_from_dict dd next (to_dict_list sm f) = inl f' /\
+             Forall2 iso f f' /\ ids f' = seq (S next) (size_f f).
+Proof. exact roundtrip_ok. Qed.
+Print Assumptions C14_roundtrip_ok.
+
+Theorem C14_inverse_on_readonly : forall (enc : info -> jv) (sm : smapper) (f : jdict -> res info) (i : info),
+  sm_ok enc sm ->
+  (forall D, own_entries (head_dict sm i) D -> exists i', f D = inl i' /\ same_data i i') ->
+  inverse_on sm (dd_pure f) i.
+Proof. exact inverse_on_pure. Qed.
+Print Assumptions C14_inverse_on_readonly.
 
 (* string data without mapper: [raw] is Python's reading of a JSON value; the
    only thing asked of it is that the str rebuilt from a node's characters is
@@ -157,7 +180,7 @@ Print Assumptions C14_from_dict_mirrors_input.
    these are the node ids of the built nodes) are pairwise different and not 0 *)
 Theorem C14_from_dict_node_ids : forall (dd : dmapper) (calc : info -> res did) (next : nat) (obj : list jv) (f : forest),
   from_dict dd calc next obj = inl f ->
-  NoDup (flat_map nids (map parse obj)) /\ ~ In 0%Z (flat_map nids (map parse obj)).
+  NoDup (flat_map (nids dd) (map parse obj)) /\ ~ In 0%Z (flat_map (nids dd) (map parse obj)).
 Proof. exact from_dict_node_ids. Qed.
 Print Assumptions C14_from_dict_node_ids.
 
@@ -215,6 +238,18 @@ Proof. exact ex_canon. Qed.
 Example C14_ex_objects_hyps :
   sm_ok (enc_of ex_tbl) (sm_of (SMset ex_tbl)) /\ sibuniq_f ex_g /\ Forall (allinfo (inverse_on (sm_of (SMset ex_tbl)) ex_dd)) ex_g.
 Proof. exact (conj (sm_set_ok ex_tbl) (conj ex_g_sibuniq ex_g_inverse)). Qed.
+
+(* a pair that moves the id to another key and back (serialize: data["g"] =
+   data.pop("data_id"); deserialize: item["data_id"] = item.pop("g")) is an
+   inverse pair; the explicit id and the clone come back *)
+Example C14_ex_guid_pair :
+  sm_kids (sm_of (SMguid ex_tbl)) /\ Forall (allinfo (inverse_on (sm_of (SMguid ex_tbl)) ex_dd_guid)) ex_g /\
+  exists f', tree_from_dict ex_dd_guid 4 (to_dict_list (sm_of (SMguid ex_tbl)) ex_g) = inl f' /\
+             map rdid (pre_f f') = map rdid (pre_f ex_g).
+Proof.
+  refine (conj (sm_guid_kids ex_tbl) (conj ex_guid_inverse _)).
+  eexists. split; [exact ex_guid_rebuilt|reflexivity].
+Qed.
 
 (* without the inverse-pair hypothesis, or without sibling uniqueness, the round trip fails *)
 Example C14_roundtrip_needs_inverse :
